@@ -121,4 +121,43 @@ theorem frac_at_most_7_digits (n : Nat) (f : Int) (h0 : 0 ≤ f) (h1 : f < 10485
     (fracDigits (n + 7) (10 * f + 5) 10).length ≤ 7 :=
   (frac_round_trip n f h0 h1).2.1
 
+/-! ### Fuel: the digit loop never needs more than seven iterations -/
+
+theorem fuel7 (a : Int) (h1 : 10000000 < a) (h2 : a < 10485760) (n : Nat) :
+    fracDigits (n + 1) a 10000000 = fracDigits 1 a 10000000 := by
+  have hd : (10000000 : Int) > 1048576 := by decide
+  have e : Int.tdiv 10000000 2 = 5000000 := by decide
+  have h0 : 0 ≤ a + 524288 - 5000000 := by omega
+  have hs : 10 * ((a + 524288 - 5000000) % 1048576) ≤ 10000000 * 10 := by omega
+  simp only [fracDigits, hd, if_true, e, Int.tdiv_eq_ediv_of_nonneg h0,
+    Int.tmod_eq_emod_of_nonneg h0, hs]
+
+theorem fuel_step (k : Nat) (a δ : Int) (hδ : δ ≤ 1048576) (ha0 : 0 ≤ a)
+    (ih : δ * 10 < 10 * (a % 1048576) → ∀ n, fracDigits (n + k) (10 * (a % 1048576)) (δ * 10) =
+      fracDigits k (10 * (a % 1048576)) (δ * 10)) (n : Nat) :
+    fracDigits (n + (k + 1)) a δ = fracDigits (k + 1) a δ := by
+  have h1 : ¬ δ > 1048576 := by omega
+  have e : n + (k + 1) = (n + k) + 1 := by omega
+  rw [e]
+  simp only [fracDigits, h1, if_false, Int.tdiv_eq_ediv_of_nonneg ha0, Int.tmod_eq_emod_of_nonneg ha0]
+  split
+  · rfl
+  · rename_i hc
+    rw [ih (by omega) n]
+
+/-- **Fuel suffices**: any fuel ≥ 7 prints the same digits as fuel 7. -/
+theorem frac_fuel_suffices (n : Nat) (f : Int) (h0 : 0 ≤ f) (h1 : f < 1048576) :
+    fracDigits (n + 7) (10 * f + 5) 10 = fracDigits 7 (10 * f + 5) 10 := by
+  have b : ∀ x : Int, 10 * (x % 1048576) < 10485760 ∧ 0 ≤ 10 * (x % 1048576) := fun x => by omega
+  refine fuel_step 6 _ 10 (by decide) (by omega) (fun _ => ?_) n
+  refine fuel_step 5 _ (10 * 10) (by decide) (b _).2 (fun _ => ?_)
+  refine fuel_step 4 _ (10 * 10 * 10) (by decide) (b _).2 (fun _ => ?_)
+  refine fuel_step 3 _ (10 * 10 * 10 * 10) (by decide) (b _).2 (fun _ => ?_)
+  refine fuel_step 2 _ (10 * 10 * 10 * 10 * 10) (by decide) (b _).2 (fun _ => ?_)
+  refine fuel_step 1 _ (10 * 10 * 10 * 10 * 10 * 10) (by decide) (b _).2 (fun h => ?_)
+  intro m
+  have e : (10 : Int) * 10 * 10 * 10 * 10 * 10 * 10 = 10000000 := by decide
+  rw [e] at h ⊢
+  exact fuel7 _ h (b _).1 m
+
 end C17
